@@ -291,5 +291,8 @@ def check_groth16_native():
     if m and m.group(1) == 'ok' and int(m.group(2)) >= 11: return [Ob(nm, 'proved', f'{m.group(2)} passed, 0 failed', dt, 'native cargo test (ground oracle, not a solver verdict)', {'tests_passed': int(m.group(2))})]
     if m:
         failed = re.findall(r'^test (\w+) \.\.\. FAILED', out, re.M)
-        return [Ob(nm, 'violated', f'{m.group(3)} failed: {failed[:6]}', dt, 'native cargo test', None, {'kind': 'groth16-native', 'build': 'ark', 'replay': None, 'failed': failed})]
+        from . import replay
+        path = replay.write_replay('C15', {'property': 'C15', 'build': 'ark', 'cmd': 'native:groth16', 'expected': 'all Groth16 tests of tests/groth16_gadgets.rs pass with the pinned keys',
+                                           'got': f'{m.group(3)} failed: {failed[:8]}', 'what': 'cargo test --release --features r1cs --test groth16_gadgets on a copy of the current tree'})
+        return [Ob(nm, 'violated', f'{m.group(3)} failed: {failed[:6]}', dt, 'native cargo test', None, {'kind': 'groth16-native', 'build': 'ark', 'replay': path, 'failed': failed})]
     return [Ob(nm, 'inconclusive', 'could not run: ' + out[-400:], dt, 'native cargo test')]
